@@ -1,9 +1,16 @@
 """Token dictionary translator: yowsup/layers/coder/tokendictionary.py -> coq/Gen/C01Dict.v.
 
-Fail-closed: accepts exactly a class TokenDictionary whose __init__ assigns two list-of-str
-literals to self.dictionary and self.secondaryDictionary; anything else raises Untranslatable.
+Two paths (DESIGN.md 9.1):
+  * syntactic: a class TokenDictionary whose __init__ assigns two list-of-str literals to self.dictionary and
+    self.secondaryDictionary (other statements in __init__ make the shape "not recognised");
+  * measured: a fresh interpreter imports the module from the tree under test, builds TokenDictionary() and
+    reports the two tables the instance really holds, what getToken / getIndex answer for every index / word, and
+    the two flag constants.
+When the shape is recognised both must agree; when it is not, the measured tables are used provided the instance's
+own getToken / getIndex agree with them (index -> word for every index of both tables, word -> first index).
+Anything else raises Untranslatable (fail closed).
 """
-import ast, os
+import ast, json, os, subprocess, sys
 from ..env import REPO, VERIF
 
 
@@ -11,7 +18,73 @@ class Untranslatable(Exception):
     pass
 
 
+_DRIVER = r"""
+import json, sys
+from yowsup.layers.coder.tokendictionary import TokenDictionary as T
+d = T()
+prim, sec = list(d.dictionary), list(d.secondaryDictionary)
+ok = all(isinstance(w, str) for w in prim + sec)
+res = {"primary": prim, "secondary": sec, "strings": ok,
+       "flags": [getattr(T, "FLAG_SEGMENTED", None), getattr(T, "FLAG_DEFLATE", None)], "problems": []}
+if ok:
+    d2 = T()
+    for i, w in enumerate(prim):
+        if d2.getToken(i) != w: res["problems"].append("getToken(%d) = %r, table says %r" % (i, d2.getToken(i), w))
+    for i, w in enumerate(sec):
+        if d2.getToken(i, True) != w: res["problems"].append("getToken(%d, True) = %r, table says %r" % (i, d2.getToken(i, True), w))
+    seen = set()
+    for i, w in enumerate(prim):
+        if w in seen: continue
+        seen.add(w)
+        if d2.getIndex(w) != (i, False): res["problems"].append("getIndex(%r) = %r, table says %r" % (w, d2.getIndex(w), (i, False)))
+    for i, w in enumerate(sec):
+        if w in seen: continue
+        seen.add(w)
+        if d2.getIndex(w) != (i, True): res["problems"].append("getIndex(%r) = %r, table says %r" % (w, d2.getIndex(w), (i, True)))
+    if d2.getIndex("\x00no such token\x00") is not None: res["problems"].append("getIndex of a non-token is not None")
+    res["problems"] = res["problems"][:8]
+json.dump(res, sys.stdout)
+"""
+
+
+def measure_tables(repo=None):
+    repo = repo or REPO
+    env = {"PYTHONPATH": repo, "PYTHONHASHSEED": "0", "PYTHONDONTWRITEBYTECODE": "1",
+           "PATH": os.environ.get("PATH", "/usr/bin:/bin")}
+    try:
+        p = subprocess.run([sys.executable, "-c", _DRIVER], env=env, cwd="/", stdout=subprocess.PIPE,
+                           stderr=subprocess.PIPE, text=True, timeout=120)
+    except subprocess.TimeoutExpired:
+        raise Untranslatable("measuring the token dictionary did not finish")
+    if p.returncode != 0:
+        raise Untranslatable("measuring the token dictionary failed: %s" % p.stderr.strip()[-300:])
+    res = json.loads(p.stdout)
+    if not res["strings"]:
+        raise Untranslatable("the dictionary tables hold non-string entries")
+    if res["flags"] != [1, 2]:
+        raise Untranslatable("flag constants changed: %r" % res["flags"])
+    if res["problems"]:
+        raise Untranslatable("getToken / getIndex disagree with the tables the instance holds: %s" % res["problems"][:3])
+    for w in res["primary"] + res["secondary"]:
+        if any(ord(c) > 255 for c in w):
+            raise Untranslatable("character above 255 in %r" % w)
+    return res["primary"], res["secondary"]
+
+
 def read_tables(repo=None):
+    """-> (primary, secondary); see the module docstring for the two paths"""
+    try:
+        syn = read_tables_syntactic(repo)
+    except Untranslatable as e:
+        syn, why = None, str(e)
+    meas = measure_tables(repo)
+    if syn is not None and (list(syn[0]), list(syn[1])) != (meas[0], meas[1]):
+        raise Untranslatable("the list literals in __init__ and the tables a TokenDictionary() instance holds differ")
+    read_tables.last_path = "syntactic+measured" if syn is not None else "measured (shape not recognised: %s)" % why
+    return meas
+
+
+def read_tables_syntactic(repo=None):
     path = os.path.join(repo or REPO, "yowsup/layers/coder/tokendictionary.py")
     tree = ast.parse(open(path, encoding="utf-8").read())
     cls = [n for n in tree.body if isinstance(n, ast.ClassDef) and n.name == "TokenDictionary"]
